@@ -2741,6 +2741,14 @@ fn emb_directed() -> Vec<(&'static str, Metric, Vec<EOp>)> {
     let mut ops = data();
     ops.extend([EOp::Build { st: St::Auto }, se(&[1, 0, 2], 4), s("e", &[0, 3, 0]), se(&[1, 0, 2], 4), EOp::Build { st: St::Auto }, se(&q, 4)]);
     out.push(("dot-other-dimension", Metric::Dot, ops));
+    // stored vectors and queries FAR FROM THE ORIGIN and close to each other (squared norms beyond 2^24,
+    // squared distances 1, 4, 9, 25): the Euclidean score is a function of the per-coordinate differences,
+    // which are exact in f32 here, so every score is the true one to the last bit; a distance computed as
+    // |a|^2 + |b|^2 - 2ab would lose the differences to rounding (seeded change C06_9)
+    let far = |d: &[i64]| -> Vec<i64> { d.iter().map(|x| 4000 + x).collect() };
+    let mut ops = vec![s("n1", &far(&[1, 0, 0, 0])), s("n2", &far(&[0, 2, 0, 0])), s("n3", &far(&[0, 0, 3, 0])), s("n5", &far(&[3, 0, 0, 4])), s("o", &[0, 0, 0, 10])];
+    ops.extend([se(&far(&[0, 0, 0, 0]), 5), se(&far(&[0, 0, 0, 0]), 2), se(&far(&[1, 1, 0, 0]), 3), se(&[0, 0, 0, 1], 2)]);
+    out.push(("euclid-far-from-origin", Metric::Euc, ops));
     out
 }
 
